@@ -38,8 +38,15 @@ def eoi_fact(x, inp_terms=None):
     for c in x.conds:
         if c[0] == "is" and c[2] == PE + "Incomplete" and c[3] is True and c[1][0] == "payload" and c[1][2] == ERR:
             return "a sub-parser reported Incomplete (re-raised)"
-        if c[0] == "is" and c[2] == SOME and c[3] is False and c[1][0] == "call" and c[1][1].endswith("::first"):
-            return "first() is None"
+        if c[0] == "is" and c[2] == SOME and c[3] is False and c[1][0] == "call" and c[1][1].split("::")[-1] in ("first", "split_first") and len(c[1][2]) == 1:
+            return "%s() is None" % c[1][1].split("::")[-1]
+        if c[0] == "is" and c[2] == SOME and c[3] is False and pathsum.is_slice_get(c[1]) and looks_like_remainder(c[1][2][0]):
+            return "get(range) is None: the remainder is shorter than needed"
+        if c[0] == "true" and c[1][0] == "bin" and c[1][1] in ("Gt", "Ge", "Le") and (
+                (c[1][1] == "Gt" and c[2] is True and c[1][3][0] == "call" and c[1][3][1].endswith("::len")) or
+                (c[1][1] == "Ge" and c[2] is False and c[1][2][0] == "call" and c[1][2][1].endswith("::len")) or
+                (c[1][1] == "Le" and c[2] is False and c[1][3][0] == "call" and c[1][3][1].endswith("::len"))):
+            return "len() < needed"
         if c[0] == "true" and c[2] is True and c[1][0] == "bin" and c[1][1] == "Lt" and c[1][2][0] == "call" and c[1][2][1].endswith("::len"):
             return "len() < needed"
         if c[0] == "true" and c[2] is True and c[1][0] == "call" and c[1][1].endswith("::is_empty") and looks_like_remainder(c[1][2][0]):
@@ -163,7 +170,7 @@ def rule_G(ck, lib, sk, rid):
             ck.judge(ok, rid, "parse:ok-exit#%d" % n, "remainder chain %s" % ([pid_name(c[1]) if c[1] and c[0] != "loop" else c[0] for c in ch] if ch else None),
                      "an accepted unit does not pass a strict consumer on the way to its remainder (chain %s): zero bytes may be consumed" % (ch,),
                      data=pathsum.show_exit(x)[:1200])
-    ck.floor(rid, "Ok exits of parse", n, 10)
+    ck.floor(rid, "Ok exits of parse", n, 2)
 
 
 def rule_T(ck, lib, sk):
@@ -186,10 +193,10 @@ def rule_T(ck, lib, sk):
         if last is not None:
             pid, inp, t, oc = last
             want = ("tproj", ("payload", t, OK, 0), 0)
-            term = pid in (("tag", 10), ("tag", 59), ("optional", ("tag", 10)))
+            term = pid in (("tag", 10), ("tag", 59), ("optional", ("tag", 10))) or (pid[0] == "satisfy" and pid[1] and set(pid[1]) <= {10, 59})
             ok = oc is True and rem == want and term
             why = "last application on the path is %s (%s), returned remainder %s" % (pid_name(pid), "ok" if oc else "failed" if oc is False else "?", "is its remainder" if rem == want else "is NOT its remainder")
         ck.judge(ok, "C12-T", "parse:terminator-last#%d" % n, "the terminator is consumed last and its remainder is returned",
                  "an accepting path of parse examines input behind the unit's terminator or does not return the terminator's remainder: %s" % why,
                  data=pathsum.show_exit(x)[:1500])
-    ck.floor("C12-T", "Ok exits of parse", n, 10)
+    ck.floor("C12-T", "Ok exits of parse", n, 2)
